@@ -38,7 +38,6 @@ pred cbDomain(p *CircuitBreakerPolicy) := p != nil && p.SlidingWindowSize >= 1 &
 
 func (p *CircuitBreakerPolicy) CreateWrapper() (w Wrapper)
   flag allocates
-  flag frame=unchecked
   requires validated-policy: cbDomain(p)
   modifies gCBPolicy, allof("ghost:github.com/megaease/easegress/pkg/util/circuitbreaker.clock")
   ensures breaker-runs-with-the-configured-numbers: let q = ptr(gCBPolicy, "*circuitbreaker.Policy") in (gCBPolicy != 0 && q.FailureRateThreshold == p.FailureRateThreshold && q.SlowCallRateThreshold == p.SlowCallRateThreshold && q.SlidingWindowSize == p.SlidingWindowSize && q.PermittedNumberOfCallsInHalfOpen == p.PermittedNumberOfCallsInHalfOpen && q.MinimumNumberOfCalls == p.MinimumNumberOfCalls)
